@@ -55,26 +55,31 @@ Section FBase.
 
   (* c' extends c: inputs untouched, only empty entries filled, an entry whose
      precedents are all in G only by its from-scratch value *)
+  (* a value some call of the cell's function returned *)
+  Definition computed (m : nat) (v : pyval) : Prop := exists vals, fsem m vals = Some v.
+
   Definition Ext (c c' : cache) : Prop :=
     (forall m, isinput m = true -> c' m = c m) /\
     (forall m, c m <> VNone -> c' m = c m) /\
-    (forall m, m < N -> semiG m -> c' m = c m \/ F m = FVal (c' m)).
+    (forall m, m < N -> semiG m -> c' m = c m \/ F m = FVal (c' m)) /\
+    (forall m, c' m = c m \/ computed m (c' m)).
 
   Lemma Ext_refl c : Ext c c.
   Proof. repeat split; auto. Qed.
 
   Lemma Ext_trans c0 c1 c2 : Ext c0 c1 -> Ext c1 c2 -> Ext c0 c2.
   Proof.
-    intros (A1 & A2 & A3) (B1 & B2 & B3). repeat split.
+    intros (A1 & A2 & A3 & A4) (B1 & B2 & B3 & B4). repeat split.
     - intros m I. now rewrite B1, A1.
     - intros m H. rewrite B2; [now apply A2|]. now rewrite A2.
     - intros m L S. destruct (B3 m L S) as [E|H]; [|right; auto].
       rewrite E. apply A3; auto.
+    - intros m. destruct (B4 m) as [E|H]; [|right; auto]. rewrite E. apply A4.
   Qed.
 
   Lemma Ext_sound c c' : SoundG c -> Ext c c' -> SoundG c'.
   Proof.
-    intros [S1 S2] (A1 & A2 & A3). split.
+    intros [S1 S2] (A1 & A2 & A3 & _). split.
     - intros m I. now rewrite A1, S1.
     - intros m L g I H. destruct (A3 m L (G_semiG m L g)) as [E|R]; auto.
       rewrite E in *. now apply S2.
@@ -160,6 +165,12 @@ Section FBase.
           -- eapply anc_trans; eauto.
   Qed.
 
+  Lemma compute_value n vals v : compute fsem fpre n vals = FVal v -> fsem n vals = Some v.
+  Proof.
+    unfold compute. destruct (fpre n); [discriminate|].
+    destruct (fsem n vals); [|discriminate]. intros H. now inversion H.
+  Qed.
+
   Lemma compute_raise n vals e : compute fsem fpre n vals = FRaise e ->
     fpre n <> None \/ exists vals, fsem n vals = None.
   Proof.
@@ -195,12 +206,15 @@ Section FBase.
         - destruct V1 as (e1 & ch1 & H). discriminate. }
       unfold compute_c. destruct (compute fsem fpre n vals) as [v|e] eqn:Cp; cbn [fst snd].
       + split; [|split; [|split; [discriminate|]]].
-        * destruct E1 as (A1 & A2 & A3). repeat split.
+        * destruct E1 as (A1 & A2 & A3 & A4). repeat split.
           -- intros m Im. rewrite upd_other by (intros ->; congruence). auto.
           -- intros m Hm. rewrite upd_other by (intros ->; congruence). auto.
           -- intros m Lm Sm. destruct (Nat.eq_dec m n) as [->|NE].
              ++ right. rewrite upd_same. now apply Vn.
              ++ rewrite upd_other by auto. now apply A3.
+          -- intros m. destruct (Nat.eq_dec m n) as [->|NE].
+             ++ right. rewrite upd_same. exists vals. now apply compute_value.
+             ++ rewrite upd_other by auto. apply A4.
         * intros S _. cbn [agrees]. now apply Vn.
         * intros v' H. inversion H. apply upd_same.
       + split; [exact E1|split; [|split; [|discriminate]]].
@@ -389,7 +403,9 @@ Section FBase.
     /\ (semiG n -> st_cache (fst r) n = VNone \/ F n = FVal (st_cache (fst r) n))
     /\ (semiG n -> agrees (snd r) n)
     /\ (forall e ch, snd r = CRaise e ch -> chain_ok n ch)
-    /\ (forall v, snd r = CVal v -> st_cache (fst r) n = v).
+    /\ (forall v, snd r = CVal v -> st_cache (fst r) n = v)
+    /\ (forall m, st_cache (fst r) m = st_cache s m \/ st_cache (fst r) m = VNone \/
+                  computed m (st_cache (fst r) m)).
   Proof.
     intros [J1 J2 J3] Bn I. pose proof (J1 n Bn) as L. unfold recalc_c. cbn zeta.
     set (s0 := {| st_cache := upd (st_cache s) n VNone; st_built := st_built s |}).
@@ -404,8 +420,8 @@ Section FBase.
     assert (C1n: c1 n = VNone) by (unfold c1; rewrite B3; apply upd_same).
     destruct (eval_c_top c1 n L K1) as (E & V & Ch & Vl).
     destruct (eval_c (S N) c1 n) as [c2 r]. cbn [fst snd] in *.
-    destruct E as (A1 & A2 & A3).
-    split; [|split; [exact B2|split; [|split; [|split; [|split]]]]].
+    destruct E as (A1 & A2 & A3 & A4).
+    split; [|split; [exact B2|split; [|split; [|split; [|split; [|split]]]]]].
     - split; cbn [st_cache st_built]; rewrite ?B2; auto.
       eapply Ext_sound; [exact K1|]. repeat split; auto.
     - intros m NE. assert (X: c1 m = st_cache s m) by (unfold c1; rewrite B3; now apply upd_other).
@@ -414,6 +430,8 @@ Section FBase.
     - intros S. apply V; auto.
     - intros e ch H. now apply (Ch e ch H).
     - exact Vl.
+    - intros m. cbn [st_cache]. destruct (A4 m) as [E|H]; [|auto]. rewrite E. unfold c1. rewrite B3. unfold s0. cbn [st_cache].
+      destruct (Nat.eq_dec m n) as [->|NE]; [rewrite upd_same; auto|rewrite upd_other; auto].
   Qed.
 
   Lemma build_c_SJ s n : SJ s -> n < N ->
@@ -426,6 +444,8 @@ Section FBase.
           (m < N -> semiG m -> st_cache (fst r) m = st_cache s m \/ F m = FVal (st_cache (fst r) m)))
     /\ (forall m, st_built s m = false -> st_built (fst r) m = true -> is_fcell W m = true ->
           stored m <> VNone -> st_cache (fst r) m = stored m)
+    /\ (forall m, st_cache (fst r) m = st_cache s m \/ st_cache (fst r) m = VNone \/
+                  st_cache (fst r) m = stored m \/ computed m (st_cache (fst r) m))
     /\ match snd r with
        | Some (e, ch) => chain_ok n ch /\ st_built s n = false /\
                          ((forall a, anc a n -> G a) -> is_raise (F n) = true)
@@ -453,15 +473,18 @@ Section FBase.
     cbn zeta in E, Fl. cbn [fst snd st_cache st_built].
     assert (Old: forall m, st_built s m = true -> new_cells W s b' m = st_cache s m).
     { intros m Bm. rewrite NC, Bm. cbn [negb]. now rewrite andb_false_r. }
-    split; [|split; [exact C2|split; [exact C1|split; [|split; [|split]]]]].
+    split; [|split; [exact C2|split; [exact C1|split; [|split; [|split; [|split]]]]]].
     - split; cbn [st_cache st_built]; auto. eapply Ext_sound; eauto.
     - intros Bn. unfold b'. now rewrite closure_unfold, Bn.
-    - intros m Bm. destruct E as (A1 & A2 & A3). rewrite <- (Old m Bm). split; auto.
+    - intros m Bm. destruct E as (A1 & A2 & A3 & _). rewrite <- (Old m Bm). split; auto.
     - intros m B0 Bm FC SN. destruct E as (_ & A2 & _).
       assert (X: new_cells W s b' m = stored m).
       { rewrite NC, Bm, B0. unfold is_fcell in FC. apply andb_prop in FC. destruct FC as [I R].
         rewrite I. apply negb_true_iff in R. now rewrite R. }
       rewrite <- X. apply A2. now rewrite X.
+    - intros m. destruct E as (_ & _ & _ & A4). destruct (A4 m) as [X|X]; [|auto]. rewrite X, NC.
+      destruct (b' m && negb (st_built s m) && negb (isinput m)); auto.
+      destruct (wb_range W m); auto.
     - destruct (snd r) as [[e ch]|] eqn:Sr; auto.
       destruct Fl as (CO & m & Am & Lm & B0 & Rm). split; [exact CO|split].
       + destruct (st_built s n) eqn:Bn; auto. exfalso.
